@@ -23,7 +23,9 @@ m("M03", S+"implementors/slice.rs", "            .min(self.initial_len())\n     
 m("M04", S+"implementors/iter.rs", "                        false => self.completed.store(true, atomic::Ordering::SeqCst),", "                        false => {}", ["C09", "C11"])
 m("M05", S+"implementors/iter.rs", "                    let values = buffer.into_iter();\n                    let older_count = self.progress_yielded_counter(n);", "                    let older_count = self.progress_yielded_counter(buffer.len());\n                    let values = buffer.into_iter();", ["C09"])
 m("M06", S+"buffered/iter.rs", "let older_count = iter.progress_yielded_counter(self.chunk_size());", "let older_count = iter.progress_yielded_counter(i.max(1));", ["C09"])
-m("M07", S+"implementors/iter.rs", "        self.counter().store(usize::MAX);\n        self.completed.store(true, atomic::Ordering::SeqCst);", "        self.counter().store(usize::MAX);", ["C06", "C09"])
+# M07 was harmful on the pinned tree; since the repair of D6/D7 (saturated counter => later pulls end, try_get_len == Some(0))
+# dropping the flag only delays waiting pulls, which may legally still deliver: no listed property is violated any more
+m("M07", S+"implementors/iter.rs", "        self.counter().store(usize::MAX);\n        self.completed.store(true, atomic::Ordering::SeqCst);", "        self.counter().store(usize::MAX);", ["C06", "C09", "C11", "C05"], harmless=True)
 m("M08", S+"atomic_counter.rs", ".fetch_update(Ordering::AcqRel, Ordering::Acquire, update)", ".fetch_update(Ordering::Relaxed, Ordering::Relaxed, update)", ["C07"])
 m("M09", S+"atomic_counter.rs", "self.current.load(Ordering::Acquire)", "self.current.load(Ordering::Relaxed)", ["C07"])
 m("M10", S+"implementors/vec.rs", "let begin = current.min(self.skipped_from.current()).min(len);", "let begin = (current + 1).min(self.skipped_from.current()).min(len);", ["C08", "C15"])
@@ -69,10 +71,14 @@ m("M58", S+"implementors/range.rs", "self.counter().store(self.range.end.into())
 # ---- batch 3: added in the build round --------------------------------------------------------------
 m("M60", S+"implementors/iter.rs", "                    std::mem::forget(guard);\n                    match next.is_some() {", "                    drop(guard);\n                    match next.is_some() {", ["C05", "C01", "C09"])
 m("M61", S+"implementors/taken_slice.rs", "        unsafe { ptr::drop_in_place(ptr::slice_from_raw_parts_mut(self.ptr, self.len)) }", "        let _ = (self.ptr, self.len);", ["C08", "C15"])
-m("M62", S+"implementors/vec.rs", "                Some(unsafe { self.take_one(item_idx) })", "                Some(unsafe { self.take_one(item_idx.min(self.vec_len - 1)) })", [], harmless=True)
 m("M63", S+"implementors/range.rs", "            Ordering::Less => begin_value.saturating_add(n).min(self.range.end.into()),", "            Ordering::Less => (begin_value + n).min(self.range.end.into()),", ["C16"])
-m("M64", S+"copied.rs", "        self.iter.into_seq_iter().copied()", "        self.iter.into_seq_iter().skip(1).copied()", ["C13", "C10"])
+m("M64", S+"copied.rs", "        self.iter.into_seq_iter().copied()", "        let mut rest = self.iter.into_seq_iter();\n        let _ = rest.next();\n        rest.copied()", ["C13", "C10"])
 m("M65", S+"implementors/iter.rs", "    fn into_seq_iter(self) -> Self::SeqIter {\n        self.iter.into_inner()\n    }", "    fn into_seq_iter(self) -> Self::SeqIter {\n        let mut it = self.iter.into_inner();\n        let _ = it.next();\n        it\n    }", ["C10", "C08"])
+
+# harmless edits that add atomic accesses inside adaptor operations: the lock-step of C13 must not depend on event counts
+m("M70", S+"cloned.rs", "    fn early_exit(&self) {\n        self.iter.early_exit()\n    }", "    fn early_exit(&self) {\n        let _ = self.iter.counter().current();\n        self.iter.early_exit();\n        let _ = self.iter.counter().current();\n    }", ["C13", "C06"], harmless=True)
+m("M71", S+"copied.rs", "        self.iter.get(item_idx).copied()", "        let _ = self.iter.counter().current();\n        self.iter.get(item_idx).copied()", ["C13", "C01"], harmless=True)
+m("M72", S+"cloned.rs", "        self.iter.progress_and_get_begin_idx(number_to_fetch)", "        let r = self.iter.progress_and_get_begin_idx(number_to_fetch);\n        let _ = self.iter.counter().current();\n        r", ["C13", "C03"], harmless=True)
 
 LOCK_MOD = '''
 /// test-and-set spin lock built from the crate's (monitored) atomic type
